@@ -303,10 +303,12 @@ theorem run_inv (s : Seq) (ops : List Op) (hl : s.tr.level ≠ .none) (h : SeqIn
     have := step_inv o hl h
     exact ih _ (by rw [this.2]; exact hl) this.1
 
-theorem new_level (lvl : Level) (frames : Nat) (par0 : Parent) : (Seq.new lvl frames par0).tr.level = lvl := by
+theorem new_level (lvl : Level) (frames : Nat) (par0 : Parent) (bt : Bool) :
+    (Seq.new lvl frames par0 bt).tr.level = effLevel lvl bt := by
   simp [Seq.new, Tracer.new]
 
-theorem new_inv (lvl : Level) (frames : Nat) (par0 : Parent) (h0 : par0.blocks = []) : SeqInv (Seq.new lvl frames par0) :=
+theorem new_inv (lvl : Level) (frames : Nat) (par0 : Parent) (bt : Bool) (h0 : par0.blocks = []) :
+    SeqInv (Seq.new lvl frames par0 bt) :=
   ⟨by simp [Seq.new, Tracer.new, ks, pks, h0], by simp [Seq.new, pks, h0], by simp [Seq.new, Tracer.new, pks, sumSnd, h0],
    by simp [Seq.new, pks, h0]⟩
 
@@ -316,17 +318,16 @@ def liveBytes (p : Parent) : Nat := (p.blocks.map (·.2.size)).sum
 theorem liveBytes_eq (p : Parent) : liveBytes p = sumSnd (pks p) := by
   simp [liveBytes, sumSnd, pks, List.map_map, Function.comp_def]
 
-theorem seq_main (lvl : Level) (frames : Nat) (par0 : Parent) (h0 : par0.blocks = []) (ops : List Op) :
-    ((Seq.new lvl frames par0).run ops).tr.bytes =
-        (if lvl = .none then 0 else liveBytes ((Seq.new lvl frames par0).run ops).par % W) ∧
-    ((Seq.new lvl frames par0).run ops).tr.count =
-        (if lvl = .none then 0 else ((Seq.new lvl frames par0).run ops).par.blocks.length) := by
-  have hlev := run_level (Seq.new lvl frames par0) ops
+theorem seq_main (lvl : Level) (frames : Nat) (par0 : Parent) (bt : Bool) (h0 : par0.blocks = []) (ops : List Op) :
+    ((Seq.new lvl frames par0 bt).run ops).tr.bytes =
+        (if effLevel lvl bt = .none then 0 else liveBytes ((Seq.new lvl frames par0 bt).run ops).par % W) ∧
+    ((Seq.new lvl frames par0 bt).run ops).tr.count =
+        (if effLevel lvl bt = .none then 0 else ((Seq.new lvl frames par0 bt).run ops).par.blocks.length) := by
+  have hlev := run_level (Seq.new lvl frames par0 bt) ops
   rw [new_level] at hlev
-  by_cases hn : lvl = .none
-  · subst hn
-    simp [Tracer.bytes, Tracer.count, hlev]
-  · have hi := run_inv (Seq.new lvl frames par0) ops (by rw [new_level]; exact hn) (new_inv lvl frames par0 h0)
+  by_cases hn : effLevel lvl bt = .none
+  · simp [Tracer.bytes, Tracer.count, hlev, hn]
+  · have hi := run_inv (Seq.new lvl frames par0 bt) ops (by rw [new_level]; exact hn) (new_inv lvl frames par0 bt h0)
     simp only [Tracer.bytes, Tracer.count, hlev, hn, if_false]
     refine ⟨by rw [liveBytes_eq]; exact hi.acct, ?_⟩
     have := congrArg List.length hi.same
